@@ -385,6 +385,8 @@ def malform(text, rnd, decl_names):
         return rnd.choice([
             ("defined-function-argument-sort", text + "(define-fun |df!s| ((a Int)) Int a)(assert (= (|df!s| 1.5) 1))\n"),
             ("defined-function-argument-sort", text + "(define-fun |df!b| ((a Bool) (b Int)) Bool a)(assert (|df!b| 1 true))\n"),
+            ("defined-function-body-sort", text + "(define-fun |df!r| ((n Int)) Real (+ n 1))(assert (= (|df!r| 1) 2.0))\n"),
+            ("defined-function-body-sort", text + "(define-fun |df!q| ((n Int)) Bool (+ n 1))(assert (|df!q| 1))\n"),
             ("defined-function-arity", text + "(define-fun |df!a| ((a Int)) Int a)(assert (= (|df!a| 1 2) 1))\n"),
             ("defined-function-arity", text + "(define-fun |df!z| ((a Int)) Int a)(assert (= |df!z| 1))\n"),
             ("declared-function-argument-sort", text + "(declare-fun |uf!s| (Int) Int)(assert (= (|uf!s| true) 1))\n"),
